@@ -83,10 +83,15 @@ def cases(rng, tier):
             last = here
         out.append("NAME %s %x" % (bytes(buf).hex(), last))
     # pointers with a non-zero high part (targets >= 256) and at the 14-bit limit
-    for tgt in (255, 256, 257, 0x123, 0x3FF, 0x400, 0x1234):
+    for tgt in (255, 256, 257, 0x123, 0x3FF, 0x400, 0x7FF, 0x800, 0xFFF, 0x1000, 0x1234, 0x1FFF, 0x2000, 0x2001, 0x2ABC, 0x3000, 0x3FF0, 0x3FFA):
         buf = bytearray(rng.bytes(tgt))
         for i in range(len(buf)):
             buf[i] = buf[i] | 0x40 if buf[i] < 0x40 else buf[i]   # no accidental valid names before the target
+        # every single offset bit matters: a name-shaped decoy sits where the pointer would land with any one bit dropped
+        for bit in range(14):
+            alt = tgt & ~(1 << bit)
+            if alt != tgt and alt + 7 <= tgt:
+                buf[alt:alt + 7] = b"\x05decoy\x00"
         buf += b"\x03bar\x00"
         here = len(buf)
         buf += b"\x03foo" + bytes([0xC0 | (tgt >> 8), tgt & 0xFF])
